@@ -356,6 +356,20 @@ func TestVfAppScan(t *testing.T) {
 		}))
 		runs++
 	}
+	// no exit delay at all, and the failing entries at the end of the list: every failure is still logged before the call returns
+	// (the error stream is drained to its end, not only until the cancellation that ends the delay)
+	for k := 0; k < 4; k++ {
+		w := []int{1, 2, 8, 32}[k]
+		n := 40 + 30*k
+		c := vfAppCfg{N: n, W: w, ResCap: 1000, ExitDelay: 0, Hit: 0.3, ReqErr: 0, Procs: []int{1, 2, 4, 16}[k]}
+		out.write(vfRunAppWithKinds(c, seed+int64(runs), func(i int) string {
+			if i > n/3 {
+				return []string{"reqerr", "fail"}[i%2]
+			}
+			return ""
+		}))
+		runs++
+	}
 	// cancel-point replay (Ctrl-C): every k of a small run, sampled k in larger ones
 	for k := 0; k < ncancel; k++ {
 		c := pick([]int{3, 5, 9}[k%3])
